@@ -11,9 +11,9 @@ import (
 
 func init() {
 	register(&propDef{
-		id: "C13",
+		id:      "C13",
 		explain: "Structural necessary conditions of 'the worker pool never exceeds its bound, serves every accepted connection exactly once and leaves no worker behind after Stop': (E8) ready, workersCount and mustStop are only accessed with workerPool.lock held; (R1) a worker is created only under workersCount < MaxWorkersCount, with the increment in the same critical section, and the goroutine is started exactly on that path; every exit of workerFunc decrements workersCount under the lock; (R2) in each iteration of the worker loop WorkerFunc is called exactly once and followed by exactly one terminal action: Close + StateClosed, or StateHijacked on errHijacked; (R3) Serve sends the connection to exactly one worker channel when it returns true and to none when it returns false; (R4) release re-adds a worker to ready only when mustStop was found false in the same critical section; (R5) Stop detaches the ready list and sets mustStop within one critical section (no unlock in between on any path), so a worker finishing during Stop cannot re-enter ready unnoticed. Not decided: interleavings of Stop with the idle cleaner, idle retirement timing.",
-		run: runC13,
+		run:     runC13,
 	})
 }
 
@@ -398,11 +398,6 @@ func runC13(p *Prog, r *Report) {
 
 // resolvesErrHijacked: what the path knows about "the error returned by call == errHijacked".
 func (x *Explorer) resolvesErrHijacked(st *State, call *ssa.Call) Abs {
-	for _, ref := range *call.Referrers() {
-		var cands []ssa.Value
-		cands = append(cands, ref.(ssa.Value))
-		_ = cands
-	}
 	// find comparisons of the call result (or a phi of it) with the global errHijacked
 	res := Unknown
 	for _, b := range x.Fn.Blocks {
